@@ -42,7 +42,8 @@ const (
 
 	// a namespace prefix is any xml name (letters, digits, '_', '-', '.'), not only \w characters
 	helloPattern      = `(?is)(<([\w.\-]+:)?hello.*</([\w.\-]+:)?hello>)`
-	capabilityPattern = `(?i)(?:<(?:[\w.\-]+:)?capability>)(.*?)(?:</(?:[\w.\-]+:)?capability>)`
+	// (white space around the uri, line breaks included, is not part of it)
+	capabilityPattern = `(?i)(?:<(?:[\w.\-]+:)?capability>)\s*(.*?)\s*(?:</(?:[\w.\-]+:)?capability>)`
 
 	messageIDPattern      = `(?i)(?:message-id=["'](\d+)["'])`
 	subscriptionIDPattern = `(?i)<subscription-id.*>(\d+)</subscription-id>`
@@ -60,7 +61,7 @@ const (
 
 	initialMessageID = 101
 
-	sessionID = `(?i)<(?:[\w.\-]+:)?session-id>(\d+)</(?:[\w.\-]+:)?session-id>`
+	sessionID = `(?i)<(?:[\w.\-]+:)?session-id>\s*(\d+)\s*</(?:[\w.\-]+:)?session-id>`
 )
 
 type netconfPatterns struct {
